@@ -63,7 +63,8 @@ def mask_case(draw):
     return {'cred': c, 'scheme': draw(st.sampled_from(SCHEMES_ANY)), 'port': draw(st.sampled_from(['', ':554', ':8080'])),
             'path': draw(st.sampled_from(['', '/', '/a/b.mp4', '/x?y=1#frag'])),
             'prefix': draw(st.sampled_from(['', 'video open: ', 'tcp://localhost:5550, ', 'rtsp://other.host/path, ', '[\''])),
-            'suffix': draw(st.sampled_from(['', ' (30 fps)', '!sync;main', ', file:///tmp/x.mp4', '\']'])), 'two': draw(st.booleans())}
+            'suffix': draw(st.sampled_from(['', ' (30 fps)', '!sync;main', ', file:///tmp/x.mp4', '\']'])), 'two': draw(st.booleans()),
+            'sep': draw(st.sampled_from([', ', ', ', ',']))}       # how a second URI follows: the comma-list syntax allows both spellings
 
 
 CLASSES = ['Base', 'Util', 'VideoIn', 'VideoOut', 'ImageIn', 'ImageOut', 'MQTTOut', 'REST', 'Webvis', 'Recorder']
@@ -93,6 +94,8 @@ def config_case(draw):
         case['nest'] = draw(st.lists(st.sampled_from(['list', 'tuple', 'dict', 'adict', 'commastr']), max_size=3))
     case['lineage'] = draw(st.booleans())
     case['two'] = draw(st.booleans())
+    case['path'] = draw(st.sampled_from(['/live/stream1', '/live/stream1', '', ':8554']))   # host-only URIs are what makes a following URI interesting
+    case['sep'] = draw(st.sampled_from([', ', ', ', ',']))
     case['embed'] = draw(st.booleans())     # with fail: make normalisation fail with an error whose message quotes the source
     return case
 
@@ -199,21 +202,24 @@ def build_config(case):
     utils = _M['utils']
     c = case['cred']
     cfg = dict(BASE_CFG[case['cls']])
-    uri = uri_of(c, case['scheme'])
+    pth = case.get('path', '/live/stream1')
+    upath = {'port': pth, 'path': ''} if pth.startswith(':') else {'path': pth}
+    sep = case.get('sep', ', ')
+    uri = uri_of(c, case['scheme'], **upath)
     # the second URI of multi-URI forms carries a credential too (same tokens, other host): every occurrence must be masked
     other = uri_of(c, case['scheme'], host='second.example.com', path='/other') if case.get('two') else f"{case['scheme']}://plain.example.com/other"
     embed = case['fail'] and case.get('embed') and case['where'] == 'io'
     if embed and case['cls'] == 'VideoOut':
-        uri = uri_of(c, 'http')           # "this filter only accepts video file:// and rtsp:// outputs, not '<uri>'"
+        uri = uri_of(c, 'http', **upath)           # "this filter only accepts video file:// and rtsp:// outputs, not '<uri>'"
     if case['where'] == 'mq':
         key = MQ_KEY[case['cls']]
         good = 'tcp://localhost:5551' if key == 'sources' else 'tcp://*:5552'
-        cfg[key] = uri if case['form'] == 'str' else f'{good}, {uri}' if case['form'] == 'commastr' else [good, uri]
+        cfg[key] = uri if case['form'] == 'str' else f'{good}{sep}{uri}' if case['form'] == 'commastr' else [good, uri]
         return cfg
     if case['where'] == 'io':
         if c.get('umid') == '!':
             c = {**c, 'umid': '$'}      # '!' followed by an identifier-like user half would read as an option in the text forms
-            uri = uri_of(c, 'http' if embed and case['cls'] == 'VideoOut' else case['scheme'])
+            uri = uri_of(c, 'http' if embed and case['cls'] == 'VideoOut' else case['scheme'], **upath)
         key = 'sources' if case['cls'] == 'VideoIn' else 'outputs'
         field = 'source' if case['cls'] == 'VideoIn' else 'output'
         text = uri + case['opts']
@@ -224,7 +230,7 @@ def build_config(case):
         if form == 'str':
             cfg[key] = text
         elif form == 'commastr':
-            cfg[key] = f'{text}, {other};zz'
+            cfg[key] = f'{text}{sep}{other};zz'
         elif form == 'list':
             cfg[key] = [text, f'{other};zz']
         elif form == 'record':
@@ -237,7 +243,7 @@ def build_config(case):
         val = uri
         for n in reversed(case['nest']):
             val = [other, val] if n == 'list' else (val, 7) if n == 'tuple' else {'inner': val, 'n': 1} if n == 'dict' else \
-                utils.adict(inner=val) if n == 'adict' else (f'{other}, {val}' if isinstance(val, str) else [val])
+                utils.adict(inner=val) if n == 'adict' else (f'{val}{sep}{other}' if isinstance(val, str) else [val])
         cfg[case['key']] = val
     if embed:
         if case['cls'] == 'VideoIn':
@@ -357,7 +363,7 @@ def run_mask(case):
     uri = uri_of(c, case['scheme'], port=case['port'], path=case['path'])
     text = case['prefix'] + uri + case['suffix']
     if case.get('two'):
-        text += ', ' + uri_of(c, case['scheme'], host='second.example.com')
+        text += case.get('sep', ', ') + uri_of(c, case['scheme'], host='second.example.com')
     classes = ['single uri' if not case['prefix'] and not case['suffix'] else 'embedded uri']
     for fn in (utils.hide_uri_users_and_pwds, utils.hide_uri_pwds):
         try:
